@@ -4,7 +4,7 @@ import json, subprocess, sys, os
 base = json.load(open("/root/.vp/BASELINE.json"))
 want = set(base["stable_pass"])
 env = dict(os.environ, GOFLAGS="-mod=mod", GOPROXY="off")
-p = subprocess.run(["go", "test", "-json", "-vet=off", "-count=1", "-timeout", "25m", "./..."], cwd="/repo", env=env, stdout=subprocess.PIPE, stderr=subprocess.STDOUT, text=True)
+p = subprocess.run(["go", "test", "-json", "-vet=off", "-count=1", "-timeout", "25m", "./..."], cwd=(sys.argv[1] if len(sys.argv)>1 else "/repo"), env=env, stdout=subprocess.PIPE, stderr=subprocess.STDOUT, text=True)
 res = {}
 for line in p.stdout.splitlines():
     try:
